@@ -128,7 +128,7 @@ fn rec(cx: &mut Ctx, prefix: &mut Vec<String>, depth: usize) -> std::io::Result<
     // implementation hangs or aborts, the files end with the request that did it.
     let mut h = Harness::new();
     let mut nreq = 0u64;
-    let mut run = |h: &mut Harness, cx: &mut Ctx, line: &str| -> std::io::Result<String> {
+    let run = |h: &mut Harness, cx: &mut Ctx, line: &str| -> std::io::Result<String> {
         writeln!(cx.ops, "{line}")?;
         cx.ops.flush()?;
         let r = h.exec_line(line);
